@@ -124,8 +124,8 @@ def check(ctx):
     for k, b in prog.bodies.items():
         if b.crate == "acmed" and b.is_coroutine and b.calls_to(BUA) and k.startswith("acmed::http::") and k.endswith("::{closure#0}"):
             name = k[:-len("::{closure#0}")]
-            if name in (GET_K, POST_K):
-                continue
+            if name in (GET_K, POST_K) or prog.absorbed(name) or prog.absorbed(k):
+                continue            # a new helper of get/post is examined inside them (inlined view)
             ctx.require(R1c, name in wrappers, "%s:%s" % (b.file, b.line),
                         "%s awaits block_until_allowed on `endpoint.rl` of its parameter on every path before returning" % name, [name, "not-a-wrapper"])
     ctx.require(R1c, bool(wrappers) or all(admission_polls(prog, cs[0].body, wrappers) for cs in by_body.values()), "acmed/src/http.rs",
@@ -442,7 +442,8 @@ def check_sharing(ctx):
     ctx.floor(R3, "Clone/ToOwned call sites examined in acmed (control for the deep-clone rule)", n_clone_seen, 50)
     # run(): the EndpointSync handed to renew_certificate is an Arc clone of self.endpoints[..]
     run = prog.async_body("acmed::main_event_loop::MainEventLoop::run")
-    rc = run.calls_to("acmed::main_event_loop::renew_certificate")
+    from .guards import body_family
+    rc = [c for fb in body_family(prog, run.key) for c in fb.calls_to("acmed::main_event_loop::renew_certificate")]      # incl. closures handed to adaptors (`filter_map(..).collect()`)
     ctx.floor(R3, "renew_certificate call sites in MainEventLoop::run", len(rc), 2)
     for c in rc:
         sl = arg_origins(c, 2)
